@@ -1253,3 +1253,226 @@ def obl_kar_order(check, two_syllables, thorough=False, budget_s=None):
         return
     status = confirm_kar(check, "kar_order", vio, classify_kar, describe_kar)
     check.obligation("kar_order", "mirsym", status, detail + "; %d counterexample models" % len(vio))
+
+
+# ------------------------------------------------------------------------- C04 (layout key -> entry)
+
+def make_layout_key(shape, prop_fn=None, constrain=None):
+    """Idle method, all helpers off; key, modifier and the number-pad option symbolic; the layout file is an
+    oracle: whatever entry name the code asks for, the entry may be absent, empty, or any text of 1-2 code points."""
+    from common import keyname_spec, published_keys
+    spec = keyname_spec()
+    keys = published_keys()
+
+    def build(st, it):
+        prog = it.p
+        key = st.sym_bv("key", 16)
+        mod = st.sym_bv("modifier", 8)
+        if shape.get("published_only"):
+            st.assume(z3.Or([key == c for _, c in keys]))
+        asked = []
+
+        def oracle(it2, m, name):
+            asked.append(tuple(name))
+            i = len(asked)
+            k = it2.st.choose([z3.Bool("entry%d_absent" % i), z3.And(z3.Not(z3.Bool("entry%d_absent" % i)), z3.BitVec("entry%d_len" % i, 8) == 0),
+                               z3.And(z3.Not(z3.Bool("entry%d_absent" % i)), z3.BitVec("entry%d_len" % i, 8) == 1),
+                               z3.And(z3.Not(z3.Bool("entry%d_absent" % i)), z3.BitVec("entry%d_len" % i, 8) == 2),
+                               z3.And(z3.Not(z3.Bool("entry%d_absent" % i)), z3.UGT(z3.BitVec("entry%d_len" % i, 8), 2))])
+            if k == 4:
+                from mirsym.interp import PathAbort
+                raise PathAbort("entry longer than the bound")
+            if k == 0:
+                st.ctx["entries"].append((tuple(name), None))
+                return None
+            val = [it2.st.sym_char("e%d_%d" % (i, j)) for j in range(k - 1)]
+            st.ctx["entries"].append((tuple(name), val))
+            return SString(val)
+        fixed = {o: False for o in OPTS}
+        del fixed["fixed_numpad"]
+        cfg, opts = mk_config(prog, st, fixed)
+        fm = mk_fixed(prog, [], [], None, [], [])
+        fm_field(prog, fm, "layout").fields[0].oracle = oracle
+        st.ctx = dict(key=key, mod=mod, opts=opts, fm=fm, asked=asked, entries=[], shape=shape)
+        fn = prog.find_trait_fn("FixedMethod", "Method", "get_suggestion")
+
+        def run():
+            return it.call_function(fn, [Ref([fm], 0, True), key, mod, st.sym_bv("selection", 8), Ref([Opaque("Data")], 0), Ref([cfg], 0)])
+        return run
+
+    def inputs(model, c):
+        lay = {}
+        for name, val in c["entries"]:
+            if val is not None:
+                lay["".join(chr(x) for x in name)] = model_string(model, val)
+        return dict(key=int(model_value(model, c["key"])), mod=int(model_value(model, c["mod"])),
+                    numpad=bool(model_value(model, c["opts"]["fixed_numpad"])), layout=lay,
+                    asked=["".join(chr(x) for x in a) for a in c["asked"]])
+
+    def predicted(prog, model, c, out):
+        if out[0] == "panic":
+            return dict(panic=out[1].message)
+        return dict(state=fixed_state(prog, model, c["fm"]), ret=render_suggestion(prog, model, out[1]))
+
+    def on_path(st, it, out):
+        prog = it.p
+        c = st.ctx
+        model = st.get_model()
+        recs = [dict(kind="witness", inputs=inputs(model, c), predicted=predicted(prog, model, c, out))]
+        if out[0] == "panic":
+            recs.append(dict(kind="violation", clause="no_panic", inputs=inputs(model, c), predicted=predicted(prog, model, c, out)))
+            return recs
+        key, mod = c["key"], c["mod"]
+        altgr = (mod & 2) != 0
+        numpad = zb(c["opts"]["fixed_numpad"])
+        asked = ["".join(chr(x) for x in a) for a in c["asked"]]
+        buf = fm_field(prog, c["fm"], "buffer").elems
+        typed = fm_field(prog, c["fm"], "typed").elems
+        ret = out[1]
+        single = prog.enums["Suggestion"]["Single"]
+        txt = ret.fields[prog.enum_fields[("Suggestion", "Single")].index("suggestion")].elems if ret.variant == single else None
+        entry = c["entries"][0][1] if c["entries"] else None
+        clauses = []
+        rows = []
+        mk = int(model_value(model, key))
+        pinned = not st.feasible(key != mk)
+        for name, code in keys:
+            if pinned and code != mk:
+                continue
+            cp, stem, kind = spec.get(name, (0, "-", "none"))
+            if kind == "key":
+                ok_names = z3.Or(z3.And(altgr, z3.BoolVal(asked == ["Key_%s_AltGr" % stem])),
+                                 z3.And(z3.Not(altgr), z3.BoolVal(asked == ["Key_%s_Normal" % stem])))
+                active = z3.BoolVal(True)
+            elif kind == "numpad":
+                ok_names = z3.BoolVal(asked == [stem])
+                active = numpad
+            else:
+                ok_names = z3.BoolVal(asked == [])
+                active = z3.BoolVal(False)
+            rows.append((code, ok_names, active))
+        # which entry is consulted (when the path pins the key to one code only that row is relevant)
+        clauses.append(("consults_the_entry_named_by_the_key", z3.And([z3.Implies(key == code, okn) for code, okn, _ in rows]) if rows else True))
+        if not rows:
+            clauses.append(("keys_outside_the_layout_consult_nothing", asked == []))
+        elif not pinned:
+            clauses.append(("keys_outside_the_layout_consult_nothing", z3.Implies(z3.And([key != code for code, _, _ in rows]), z3.BoolVal(asked == []))))
+        # what is emitted
+        emits = entry is not None and len(entry) > 0
+        silent = z3.BoolVal(False)
+        if emits and len(entry) >= 2:
+            silent = zin(entry[0], CL.KARS + CL.RARE)
+        active_here = z3.Or([z3.And(key == code, act) for code, _, act in rows]) if rows else z3.BoolVal(False)
+        if txt is None:
+            clauses.append(("returns_single_string", False))
+        else:
+            if emits:
+                exp = z3.And(seq_eq(buf, entry), seq_eq(txt, entry))
+                noth = z3.And(z3.BoolVal(len(buf) == 0), z3.BoolVal(len(txt) == 0))
+                clauses.append(("emits_exactly_the_entry", z3.Implies(z3.Not(silent), z3.If(active_here, exp, noth))))
+                clauses.append(("cover:emits", z3.And(active_here, z3.Not(silent))))
+                clauses.append(("cover:numpad_off_inert", z3.And(z3.Not(active_here), z3.Or([key == code for code, _, _ in rows])) if rows else False))
+            else:
+                clauses.append(("empty_or_missing_entry_changes_nothing", len(buf) == 0 and len(txt) == 0))
+                clauses.append(("cover:inert", True))
+        clauses.append(("raw_keys_not_recorded_without_suggestions", len(typed) == 0))
+        for cname, formula in clauses:
+            if cname.startswith("cover:"):
+                if formula is True or (formula is not False and st.feasible(formula)):
+                    recs.append(dict(kind="cover", name=cname))
+                continue
+            if formula is True:
+                continue
+            neg = z3.Not(formula) if formula is not False else z3.BoolVal(True)
+            st.solver.push()
+            st.solver.add(neg)
+            if st._check(None):
+                m2 = st.solver.model()
+                recs.append(dict(kind="violation", clause=cname, inputs=inputs(m2, c), predicted=predicted(prog, m2, c, out)))
+            st.solver.pop()
+        return recs
+    return build, on_path
+
+
+def layout_scenario(inp):
+    opts = {"numpad": inp["numpad"]}
+    return {"steps": [{"op": "new", "config": {"layout_json": inp["layout"] or {"Key_zz_Normal": "x"}, "opts": opts}},
+                      {"op": "key", "key": inp["key"], "mod": inp["mod"], "sel": 0}, {"op": "get_state"}]}
+
+
+def layout_compare(w, res):
+    rr = res["results"]
+    if "error" in rr[0] or "panic" in rr[0]:
+        return "native context creation failed: %s" % rr[0]
+    ev = rr[1]
+    pred = w["predicted"]
+    if pred.get("panic") is not None:
+        return None if "panic" in ev else "symbolic path panics, native returns"
+    if "panic" in ev:
+        return "native run panics: " + ev["panic"]
+    st = rr[2]["state"]
+    if st["buffer"] != pred["state"]["buffer"] or st["typed"] != pred["state"]["typed"]:
+        return "native state %r, symbolic %r" % (st, pred["state"])
+    if ev["suggestion"].get("text") != pred["ret"].get("text"):
+        return "native text %r symbolic %r" % (ev["suggestion"].get("text"), pred["ret"].get("text"))
+    return None
+
+
+def obl_layout_key(check, budget_s=None):
+    shapes = [dict(published_only=False)]
+    check.bounds["layout_key"] = dict(key="all 2^16 codes", modifier="all 2^8 bytes", number_pad_option="symbolic",
+                                      layout="oracle: the consulted entry is absent / empty / any 1-2 code points",
+                                      state="idle, all helpers and suggestions off")
+
+    def make(shape):
+        return make_layout_key(shape)
+    records, errors, summ = msym.run_shapes(check, "layout_key", shapes, make, budget_s=budget_s)
+    wit = [r for r in records if r["kind"] == "witness"]
+    vio = [r for r in records if r["kind"] == "violation"]
+    covers = set(r["name"] for r in records if r["kind"] == "cover")
+    okc, bad = validate_witnesses(check, "layout_key", wit, to_scenario=layout_scenario, compare=layout_compare, cap=3000)
+    detail = "%d paths, %d witnesses replayed natively (%d agree)" % (summ["paths"], min(len(wit), 3000), okc)
+    if errors:
+        check.obligation("layout_key", "mirsym", "inconclusive", "executor gave up: " + "; ".join(sorted(set(errors))[:3]))
+        return
+    if bad:
+        check.obligation("layout_key", "mirsym", "inconclusive", "executor model disagrees with the native build on %d witnesses, e.g. %s | %s" % (
+            len(bad), bad[0][1], json.dumps(bad[0][0]["inputs"], ensure_ascii=False)[:300]))
+        return
+    need = ["cover:emits", "cover:inert", "cover:numpad_off_inert"]
+    if any(n not in covers for n in need):
+        check.obligation("layout_key", "mirsym", "inconclusive", "vacuity: missing reachability witnesses %s" % [n for n in need if n not in covers])
+        return
+    if not vio:
+        check.obligation("layout_key", "mirsym", "held", detail + "; every property query unsat")
+        return
+    # confirm natively
+    groups = {}
+    for v in vio:
+        groups.setdefault("layout key: " + v["clause"], []).append(v)
+    status = "held"
+    worst = {"held": 0, "known": 1, "inconclusive": 2, "violated": 3}
+    names = {c: n for n, c in __import__("common").published_keys()}
+    for key, vs in sorted(groups.items()):
+        conf = None
+        for v in vs[:8]:
+            sc = layout_scenario(v["inputs"])
+            res = run_replay([sc])[0]
+            if layout_compare(v, res) is None:
+                conf = (v, sc, res)
+                break
+        if conf is None:
+            st = "inconclusive"
+            check.obligation("layout_key:" + key, "mirsym", "inconclusive", "counterexample did not reproduce natively: %s" % json.dumps(vs[0]["inputs"], ensure_ascii=False)[:300])
+        else:
+            v, sc, res = conf
+            i = v["inputs"]
+            what = "key %s (0x%04X) modifier %d numpad=%s with layout %s: consulted %s, composed %r (%s)" % (
+                names.get(i["key"], "unpublished"), i["key"], i["mod"], i["numpad"], json.dumps(i["layout"], ensure_ascii=False), i["asked"],
+                v["predicted"].get("state", {}).get("buffer"), v["clause"])
+            check.stats["traces_validated"] += 1
+            st = check.finding(key + " " + names.get(i["key"], "unpublished"), what, dict(scenario=sc, observed=res["results"][1:], inputs=i))
+            check.sample(dict(obligation="layout_key", counterexample=i, role=key))
+        if worst[st] > worst[status]:
+            status = st
+    check.obligation("layout_key", "mirsym", status, detail + "; %d counterexample models" % len(vio))
